@@ -283,7 +283,7 @@ func c12History(c *rigChild, st rigStep, r *rigResult) {
 			for id, ok := range m.InterestingFor {
 				if ok {
 					raw.To = append(raw.To, int64(id))
-					if s := sessions[id]; s != nil && exists(pre, id) {
+					if s := sessions[id]; s != nil {
 						s.want++
 					}
 				}
